@@ -921,11 +921,22 @@ def check_worker_resources(chk, tu):
                 n += 1
                 attr = strip(astdb.call_args(c)[1], casts=True)
                 is_null = astdb.const_int(attr, tu) == 0 or astdb.expr_text(attr).replace(' ', '') in ('NULL', '(void*)0', '0')
+                if not is_null:
+                    # attributes are acceptable when the only thing ever set on them is a stack at least as large as the usual main stack
+                    sets = [astdb.callee_name(x) for x in walk(astdb.fn_body(f)) if x.get('kind') == 'CallExpr' and
+                            (astdb.callee_name(x) or '').startswith('pthread_attr_set')]
+                    big = [x for x in walk(astdb.fn_body(f)) if x.get('kind') == 'CallExpr' and astdb.callee_name(x) == 'pthread_attr_setstacksize' and
+                           (astdb.const_int(strip(astdb.call_args(x)[-1], casts=True), tu) or 0) >= 8 * 1024 * 1024]
+                    is_null = bool(sets) and len(sets) == len(big)
                 chk.expect(is_null, 'R09.1', '%s:thread-attributes' % name,
                            '%s creates its worker with thread attributes %r; with anything but the defaults (NULL) the worker may have fewer '
                            'resources (stack) than the thread that writes the single-file output' % (name, astdb.expr_text(attr)),
                            '%s:thread-attributes' % name, astdb.loc_str(c))
             elif re.match(r'pthread_attr_set(stacksize|stack|guardsize)$', cn):
+                size = astdb.const_int(strip(astdb.call_args(c)[-1], casts=True), tu) if cn == 'pthread_attr_setstacksize' else None
+                if size is not None and size >= 8 * 1024 * 1024:
+                    chk.ok('R09.1', '%s:%s' % (name, cn), 'explicit worker stack of %d bytes (not below the usual main-thread stack)' % size)
+                    continue
                 chk.fail('R09.1', '%s:%s' % (name, cn), '%s calls %s: the worker threads get a stack that differs from the main thread\'s, so a '
                          'deeply nested (valid) function that translates into one file can overflow the stack when -f routes it through a '
                          'worker' % (name, cn), '%s:thread-stack' % name, astdb.loc_str(c))
